@@ -370,6 +370,24 @@ def run(ctx):
         for f in imp["fails"][:5]:
             viol({"layer": "ConcordiumAllowedImports", "case": f}, "allowed import/export table: %s" % f)
 
+    # 3d'. loads / stores of every width around the end of memory (independent bounds oracle) -----------
+    rc, out = c.run_bin(binp, ["memsweep"], timeout=1200)
+    ms = None
+    for l in out.splitlines():
+        if l.startswith("{"):
+            j = json.loads(l)
+            if "violation" in j:
+                viol(j, "memory sweep: %s" % j["violation"])
+            ms = j.get("memsweep", ms)
+    if ms is None:
+        ctx.violation({"layer": "harness run (memsweep)", "rc": rc, "output": out[-1000:]}, "memory sweep harness crashed or hung", no_input=True)
+    else:
+        ctx.notes["memory_access_sweep"] = {"runs": ms["runs"], "trapped": ms["traps"], "returned": ms["ok"], "bad": len(ms["bad"])}
+        ctx.cov["evaluations"] += ms["runs"]
+        for b in ms["bad"][:5]:
+            viol({"layer": "machine.rs memory access bounds (Artifact::run)", "case": b},
+                 "memory access at the end of memory: %s" % b[:300])
+
     # 3e. replay of the recorded finding's witness ------------------------------------------------------
     rc, out = c.run_bin(binp, ["replay"], timeout=600, input=(KF_WITNESS_HEX + "\n").encode())
     for l in out.splitlines():
